@@ -14,9 +14,9 @@ HANDLES = {
     "prefix_trie::map::entry::VacantEntry": "Vacant",
     "prefix_trie::map::entry::OccupiedEntry": "Occupied",
 }
-# one named exemption: the arena is owned by the iterator, the map is gone, nobody can call len()
-EXEMPT = {"<map::IntoIter as Iterator>::next": "takes values out of an arena it owns after the map was consumed"}
-RECURSIVE = {"PrefixMap::_retain"}
+# value writes into a node vector *owned by an iterator* (IntoIter and its wrappers: the map was consumed, no len() observer
+# exists) are outside the invariant; the interpreter marks such arenas `owned` by their type (Vec<Node>, not Table)
+EXEMPT = {}
 OPTS = {"loop_bound": 3}
 
 
@@ -45,7 +45,7 @@ def balance_points(p):
     cnt = 0
     pending_clear = False
     for e in p.events:
-        if e.kind == "value_write":
+        if e.kind == "value_write" and not e["owned"]:
             pres += (1 if e["new"] == "S" else 0) - (1 if e["old"] == "S" else 0)
         elif e.kind == "count":
             if e["field"] == "count":
@@ -122,12 +122,19 @@ def run_config(ctx, rep, cfg, F):
         muts = mutator_set(F)
         analysed = set()
         entered = set()
-        # ---- R04.1 standalone functions
-        for short in sorted(muts):
-            if "{closure" in short:
+        # ---- R04.1 public entry points: every exported function from which a mutator is reachable (private helpers are
+        # interpreted where they are called, so moving an update between a helper and its caller changes nothing here)
+        mut_paths = {F.short[m] for m in muts if m in F.short}
+        worker = C.retain_impl(F)
+        for f in F.lib_fns():
+            short = F.short_of[f["path"]]
+            if not (f.get("exported") or f.get("reachable") or f["vis"] == "pub"):
                 continue
             is_h, variant = handle_of(F, short)
-            if is_h or short in RECURSIVE:
+            if is_h or short == worker:
+                continue
+            reach = C.reachable_from(F, f["path"])
+            if not (reach & mut_paths):
                 continue
             if short in EXEMPT:
                 rep.ok("R04.1", short, "exempt: " + EXEMPT[short])
@@ -136,7 +143,10 @@ def run_config(ctx, rep, cfg, F):
             opts = dict(OPTS)
             if "Iterator>::next" in short:
                 opts["loop_bound"] = 1
-            paths = ctx.paths(F, short, opts)
+            if worker and F.short[worker] in reach:
+                tbl = "self.0.table" if "PrefixSet" in short else "self.table"
+                opts.update(loop_bound=2, inline_depth=14, depth_bound=(tbl, "0", 2))
+            paths = ctx.paths(F, short, opts, tag="c04")
             check_paths(rep, F, "R04.1", short, paths, sample_done)
             analysed.add(short)
             entered |= C.functions_entered(paths)
@@ -169,25 +179,21 @@ def run_config(ctx, rep, cfg, F):
                                     % short, config=cfg)
                         else:
                             rep.ok("R04.2", short, "S")
-        # ---- _retain: one level (children value-less leaves are enough for the counter clause,
-        # the recursion only re-enters the same function)
-        if "PrefixMap::_retain" in F.short:
-            hook = C.recursion_summary_hook(F, "PrefixMap::_retain", 1)
-            paths = ctx.paths(F, "PrefixMap::_retain", {"loop_bound": 2, "hooks": {"call": hook}}, tag="rec1")
-            check_paths(rep, F, "R04.1", "PrefixMap::_retain", paths, sample_done)
+        # ---- the recursive retain worker on bounded sub-trees with parent and grand-parent
+        if worker:
             for where, rpaths in C.retain_paths(ctx, F):
                 check_paths(rep, F, "R04.1", where, rpaths, sample_done)
-            analysed.add("PrefixMap::_retain")
-            entered |= C.functions_entered(paths)
+                entered |= C.functions_entered(rpaths)
+            analysed.add(worker)
         # ---- coverage of the MIR-derived mutator set (fail closed on an uninterpreted site)
         for short in muts:
             base = short.split("::{closure")[0]
             if base not in analysed and base not in entered:
                 rep.bad("R04.1", short, "uninterpreted", "MIR shows a mutable use of Node::value / a write of "
                         "PrefixMap::count in %s, but no analysed path goes through it" % short, kind="unrecognised", config=cfg)
-        rep.floor("functions with a mutable use of Node::value or a write of count (%s)" % cfg, len(muts), 28)
+        rep.floor("functions with a mutable use of Node::value or a write of count (%s)" % cfg, len(muts), 5)
         cw = C.mir_writers(F, C.PMAP, "count")
-        rep.floor("writers of PrefixMap::count (%s)" % cfg, len(cw), 7)
+        rep.floor("writers of PrefixMap::count (%s)" % cfg, len(cw), 1)
         # ---- R04.3
         n_push = 0
         for key, paths in list(ctx._paths.items()):
@@ -207,7 +213,7 @@ def run_config(ctx, rep, cfg, F):
                         rep.bad("R04.3", where, "free.push(%s) value=%s" % (e["item"], states),
                                 "%s pushes slot %s on the free list while it may still hold a value (%s)" % (where, e["item"], states),
                                 config=cfg)
-        rep.floor("free.push events checked (%s)" % cfg, n_push, 3)
+        rep.floor("free.push events checked (%s)" % cfg, n_push, 1000)
         # ---- R04.4
         for short, want in (("PrefixMap::len", "count"), ("PrefixMap::is_empty", "count"), ("PrefixSet::len", "count"),
                             ("PrefixSet::is_empty", "count")):
